@@ -12,6 +12,9 @@ package main
 //   kept:<first>,<counted>                 a candidate '@' at <first>, nothing redacted
 //   red<k>:<first>,<n>,<counted>:<hex>     n redactions (k = n, or "4p" for n >= 4), new field value in hex
 //   panic
+//   seq:<o1>;<o2>;...                      kind 1: a sequence of records through the same transform instance
+//   b:<start>,<end>                        kind 2: redactFindEmailBoundary(src, atIndex, limitStart) on its own
+//   n:<0|1>                                kind 3: redactEmailCheckNumber(s) on its own
 // <counted> = 1 when the 'redacted' custom counter was advanced (once, by the record length).
 //
 // Oracle (independent of the model): a reference recogniser of "an address of the supported shape
@@ -239,11 +242,60 @@ func c14Oracle(src, out string) []Fail {
 
 // ---------------------------------------------------------------------------------------------
 
+// c14RunBoundary: redactFindEmailBoundary(src, atIndex, limitStart) on its own.  A panic is an output here (the
+// function has preconditions); with limitStart = 0 and a candidate '@' the result is compared with the reference recogniser.
+func c14RunBoundary(c *Case) (out string, fails []Fail) {
+	src := string(c.S[0])
+	at, limit := int(c.Z[0]), int(c.Z[1])
+	out = "panic"
+	var s, e int
+	func() {
+		defer func() { _ = recover() }()
+		s, e = tredactemail.VerifRedactFindEmailBoundary(src, at, limit)
+		out = fmt.Sprintf("b:%d,%d", s, e)
+	}()
+	isWord := func(b byte) bool { return b >= '0' && b <= '9' || b >= 'a' && b <= 'z' || b >= 'A' && b <= 'Z' }
+	if out != "panic" && limit == 0 && at > 0 && at+1 < len(src) && src[at] == '@' && isWord(src[at-1]) && isWord(src[at+1]) {
+		found := s != -1 && e != -1
+		for _, o := range c14Occurrences(src) {
+			if o.a != at {
+				continue
+			}
+			if o.must && !(found && s == o.s && e == o.e) {
+				fails = append(fails, Fail{"c14:boundary-misses-address", fmt.Sprintf("%q: '@' at %d: boundary (%d,%d), address at [%d,%d)", src, at, s, e, o.s, o.e)})
+			}
+			if found && (s != o.s || e != o.e) {
+				fails = append(fails, Fail{"c14:boundary-wrong", fmt.Sprintf("%q: '@' at %d: boundary (%d,%d), address at [%d,%d)", src, at, s, e, o.s, o.e)})
+			}
+			return out, fails
+		}
+		if found {
+			fails = append(fails, Fail{"c14:boundary-non-address", fmt.Sprintf("%q: '@' at %d: boundary (%d,%d) but no address there", src, at, s, e)})
+		}
+	}
+	return out, fails
+}
+
 // c14Run runs ONE long-lived transform instance over the field values of the case, in order (kind 0:
 // one value, kind 1: a sequence of records, repeats included).  All records are kept until the end and
 // their fields are read again after the last call, so state carried from one call to the next (a
 // reused buffer, a cached result) shows.
 func c14Run(c *Case) (out string, fails []Fail) {
+	switch c.Kind {
+	case 2:
+		return c14RunBoundary(c)
+	case 3:
+		out = "panic"
+		func() {
+			defer func() { _ = recover() }()
+			if tredactemail.VerifRedactEmailCheckNumber(string(c.S[0])) {
+				out = "n:1"
+			} else {
+				out = "n:0"
+			}
+		}()
+		return out, nil
+	}
 	env := c14Setup()
 	type rec struct {
 		src, value string
@@ -290,7 +342,7 @@ func c14Run(c *Case) (out string, fails []Fail) {
 	for i, rc := range recs {
 		src := rc.src
 		if now := rc.record.Fields[1]; now != rc.value {
-			fails = append(fails, Fail{"c14:field-changed-later", fmt.Sprintf("record %d of the sequence: field was %q after its transform, %q after later records", i, rc.value, now)})
+			fails = append(fails, Fail{"c14:field-changed-later", fmt.Sprintf("record %d of the sequence (source %q): field was %q after its transform, %q after later records", i, src, rc.value, now)})
 		}
 		var first, n int
 		var hookOut, pureOut string
@@ -631,6 +683,67 @@ func c14Gen(g *Gen) {
 		}
 		g.Count("sequence")
 		g.Case(1, seq, nil)
+	}
+	// redactFindEmailBoundary on its own: every (atIndex, limitStart) with 0 <= limitStart <= atIndex <= len, all small strings
+	{
+		maxLen := g.Pick(4, 5)
+		buf := make([]byte, maxLen)
+		var rec func(pos, n int)
+		rec = func(pos, n int) {
+			if pos == n {
+				for at := 0; at <= n; at++ {
+					for limit := 0; limit <= at; limit++ {
+						g.Count("boundary-exhaustive")
+						g.Case(2, [][]byte{append([]byte{}, buf[:n]...)}, []int64{int64(at), int64(limit)})
+					}
+				}
+				return
+			}
+			for _, ch := range c14Alphabet {
+				buf[pos] = ch
+				rec(pos+1, n)
+			}
+		}
+		for n := 0; n <= maxLen; n++ {
+			rec(0, n)
+		}
+	}
+	for i := 0; i < g.Pick(4000, 80000); i++ {
+		v := c14Text(r, r.Range(1, 3))
+		at := strings.IndexByte(v, '@')
+		if r.Chance(1, 3) {
+			at = strings.LastIndexByte(v, '@')
+		}
+		if at < 0 || r.Chance(1, 10) {
+			at = r.Intn(len(v) + 1)
+		}
+		limit := 0
+		if r.Bool() {
+			limit = r.Intn(at + 1)
+		}
+		g.Count("boundary-generated")
+		g.Case(2, [][]byte{[]byte(v)}, []int64{int64(at), int64(limit)})
+	}
+	// redactEmailCheckNumber on its own: all strings up to length 6 over {1, 9, ., a, -}
+	{
+		alpha := []byte("19.a-")
+		maxLen := 6
+		buf := make([]byte, maxLen)
+		var rec func(pos, n int)
+		rec = func(pos, n int) {
+			if pos == n {
+				g.Count("number-exhaustive")
+				g.Case(3, [][]byte{append([]byte{}, buf[:n]...)}, nil)
+				return
+			}
+			for _, ch := range alpha {
+				buf[pos] = ch
+				rec(pos+1, n)
+			}
+		}
+		for n := 0; n <= maxLen; n++ {
+			rec(0, n)
+		}
 	}
 	// dense random strings over the address alphabet and over all bytes
 	for i := 0; i < g.Pick(6000, 120000); i++ {
